@@ -1,4 +1,4 @@
-\* quick-tier configuration "all3x2" (harness/p_specreg.py generates the configurations it runs)
+\* quick-tier configuration "all3x2" with emission (harness/p_specreg.py generates the configurations it runs)
 SPECIFICATION Spec
 CONSTANTS
   NCtx = 2
@@ -14,4 +14,5 @@ INVARIANT SeededResolvesToLatest
 INVARIANT IgnoreExact
 INVARIANT HandlersDeclared
 INVARIANT PointDepsInOrder
+CONSTRAINT Emit
 CHECK_DEADLOCK FALSE
